@@ -99,6 +99,39 @@ fn check_utf8(chunks_: &[Vec<u8>], parse: bool, st: &mut Stats) -> Result<(), St
         return Err("inner sink received a tendril that is not valid UTF-8".into());
     }
     let exp = expected_utf8(&all);
+    // the io::Read front end (TendrilSink::read_from, 4 KiB buffer) with short reads
+    if parse || all.len() > 64 {
+        struct ChunkedReader<'a> {
+            chunks: &'a [Vec<u8>],
+            i: usize,
+            off: usize,
+        }
+        impl<'a> std::io::Read for ChunkedReader<'a> {
+            fn read(&mut self, buf: &mut [u8]) -> std::io::Result<usize> {
+                while self.i < self.chunks.len() && self.off >= self.chunks[self.i].len() {
+                    self.i += 1;
+                    self.off = 0;
+                }
+                if self.i >= self.chunks.len() {
+                    return Ok(0);
+                }
+                let c = &self.chunks[self.i][self.off..];
+                let n = c.len().min(buf.len());
+                buf[..n].copy_from_slice(&c[..n]);
+                self.off += n;
+                Ok(n)
+            }
+        }
+        let mut r = ChunkedReader { chunks: chunks_, i: 0, off: 0 };
+        let rec2 = Utf8LossyDecoder::new(Rec::default()).read_from(&mut r).map_err(|e| format!("read_from: {e}"))?;
+        if rec2.items != exp {
+            return Err(format!(
+                "read_from() stream differs from whole-input lossy decode:\n got {}\n exp {}",
+                show(&rec2.items[..rec2.items.len().min(60)]),
+                show(&exp[..exp.len().min(60)])
+            ));
+        }
+    }
     if rec.items != exp {
         return Err(format!(
             "decoded stream differs from whole-input lossy decode:\n got {}\n exp {}",
@@ -302,7 +335,16 @@ pub fn oracle(case: &Case, st: &mut Stats) -> Result<(), String> {
 }
 
 fn decode_utf8_case(s: &mut Src) -> Case {
-    let b = bytes::gen_utf8ish(s, 40);
+    let mut b = bytes::gen_utf8ish(s, 40);
+    if s.chance(12) && !b.is_empty() {
+        // long input: crosses the 4 KiB buffer of read_from at an arbitrary phase
+        let block = b.clone();
+        let target = 4000 + s.below(5000);
+        while b.len() < target {
+            b.extend_from_slice(&block);
+        }
+        b.extend(bytes::gen_utf8ish(s, 6));
+    }
     let cuts = chunks::gen_cuts(s, b.len());
     let parse = s.chance(64);
     Case {
@@ -403,7 +445,7 @@ fn decode_enc_case(s: &mut Src) -> Case {
 
 pub fn run(ctx: &Ctx) -> Report {
     let mut rep = Report::new(
-        "(1) bounded-exhaustive: every byte string of length <= L over the 25 boundary bytes of the UTF-8 well-formedness table x every partition into chunks (2^(n-1)), through Utf8LossyDecoder into a recording sink, compared item by item (characters and error calls, in order) with std's utf8_chunks()/from_utf8_lossy of the whole input; (2) random UTF-8-structured byte strings (<=40 units: ASCII, valid chars, truncated sequences, surrogates, overlongs, >10FFFF, stray continuations, BOM) x random cut multisets incl. empty chunks, 1/4 of them also parsed through parse_document(..).from_utf8() (HTML and XML drivers) and compared with the tree of the lossy string; (3) each of the 40 encoding_rs encodings: LossyDecoder::new_encoding_rs fed in chunks vs a one-shot decode of the whole input (characters, malformed-sequence errors, pending state at end of stream), inputs biased to lead/trail/escape bytes, surrogates and >8 KiB lengths. Non-trivial: an ill-formed/incomplete sequence or a valid multi-byte character is adjacent to / split by a cut (UTF-8), or >=2 non-empty chunks with non-ASCII output or a malformed sequence (encoding_rs); distinct by hash of (encoding, chunk list).",
+        "(1) bounded-exhaustive: every byte string of length <= L over the 25 boundary bytes of the UTF-8 well-formedness table x every partition into chunks (2^(n-1)), through Utf8LossyDecoder into a recording sink, (and through TendrilSink::read_from with short reads; some inputs are repeated past the 4 KiB read buffer), compared item by item (characters and error calls, in order) with std's utf8_chunks()/from_utf8_lossy of the whole input; (2) random UTF-8-structured byte strings (<=40 units: ASCII, valid chars, truncated sequences, surrogates, overlongs, >10FFFF, stray continuations, BOM) x random cut multisets incl. empty chunks, 1/4 of them also parsed through parse_document(..).from_utf8() (HTML and XML drivers) and compared with the tree of the lossy string; (3) each of the 40 encoding_rs encodings: LossyDecoder::new_encoding_rs fed in chunks vs a one-shot decode of the whole input (characters, malformed-sequence errors, pending state at end of stream), inputs biased to lead/trail/escape bytes, surrogates and >8 KiB lengths. Non-trivial: an ill-formed/incomplete sequence or a valid multi-byte character is adjacent to / split by a cut (UTF-8), or >=2 non-empty chunks with non-ASCII output or a malformed sequence (encoding_rs); distinct by hash of (encoding, chunk list).",
     );
     rep.assume("std::str::Utf8Chunks / String::from_utf8_lossy and encoding_rs's one-shot decode are the reference decoders");
     run_regressions(ctx, &mut rep, &|v| replay(&ctx.strict_clone(), v));
